@@ -385,3 +385,172 @@ Section Inv.
   Theorem reachable_inv progs s : reachable hs progs s -> Inv s.
   Proof. induction 1 as [|s t l s' _ IH Hs]; [apply inv_init|eapply step_inv; eassumption]. Qed.
 End Inv.
+
+(** ** consequences *)
+Ltac step_cases H :=
+  repeat match type of H with
+         | context [match ?x with _ => _ end] => destruct x eqn:?
+         end.
+
+Section Theorems.
+  Variable hs : handlers.
+  Hypothesis Hpar : parent_ok hs = true.
+
+  Definition finished (s : state) (t : tid) : Prop := pcs s t = Out /\ todo s t = [].
+
+  (** a step of [t] leaves every other thread's program counter, program, observations and ghost trace alone *)
+  Lemma step_frame t s l s' : step hs t s = Next l s' -> forall u, u <> t ->
+    pcs s' u = pcs s u /\ todo s' u = todo s u /\ reads s' u = reads s u /\ counts s' u = counts s u /\ trace s' u = trace s u.
+  Proof.
+    intros H u Hu. unfold step, lock_then, unlock_then, set_pc, set_mtx in H.
+    step_cases H; try discriminate; injection H as <- <-; sfields; rewrite ?upd_other by assumption; auto.
+  Qed.
+
+  (** no step of a reachable state is undefined behaviour *)
+  Lemma not_fault s t : Inv hs s -> step hs t s <> Fault.
+  Proof.
+    intros I H. destruct (I_thr hs s I t) as [T1 [T2 [T3 T4]]].
+    unfold step, lock_then, unlock_then in H.
+    destruct (pcs s t) as [ |ops|ops|ops|ops found|ops|ops|o ops|o ops h|o ops h|ops|ops| |h|h|u| | | |reg|reg] eqn:Hp;
+      cbn [needs_init holding registered handle_ok] in T1, T2, T3, T4;
+      try (rewrite T1 in H by reflexivity).
+    - step_cases H; discriminate.
+    - discriminate.
+    - step_cases H; discriminate.
+    - discriminate.
+    - destruct found; discriminate.
+    - discriminate.
+    - destruct ops as [|[ | | ] ops]; step_cases H; discriminate.
+    - discriminate.
+    - discriminate.
+    - apply andb_true_iff in T4 as [T4a T4b]. apply tid_of_handle in T4b. subst h.
+      destruct (get_entry_in t (repo s)) as [e He]; [now apply T3|]. rewrite He in H. destruct o; discriminate.
+    - discriminate.
+    - discriminate.
+    - discriminate.
+    - discriminate.
+    - apply tid_of_handle in T4. subst h. step_cases H; discriminate.
+    - apply Nat.eqb_eq in T4. subst u.
+      assert (E : has_tid t (repo s) = true) by (apply has_tid_in, T3; reflexivity). rewrite E in H. discriminate.
+    - discriminate.
+    - discriminate.
+    - destruct (h_prepare hs && inited s) eqn:Hb; [|discriminate].
+      apply andb_true_iff in Hb as [_ Hb]. rewrite Hb in H. step_cases H; discriminate.
+    - discriminate.
+    - destruct (h_parent hs && reg) eqn:Hb; [|discriminate].
+      apply andb_true_iff in Hb as [_ Hb]. subst reg. rewrite T1 in H by reflexivity. discriminate.
+  Qed.
+
+  (** a thread is blocked only when it has finished, or wants the mutex while somebody else holds it *)
+  Lemma blocked_reason s t : Inv hs s -> step hs t s = Blocked ->
+    finished s t \/ (holding hs (pcs s t) = false /\ exists u, u <> t /\ mtx s = Some (Thr u, 1)).
+  Proof.
+    intros I H. destruct (I_thr hs s I t) as [T1 [T2 [T3 T4]]].
+    assert (HL : forall p, holding hs (pcs s t) = false -> lock_then t s p = Blocked ->
+                           holding hs (pcs s t) = false /\ exists u, u <> t /\ mtx s = Some (Thr u, 1)).
+    { intros p Hh HB. split; [assumption|]. unfold lock_then in HB. destruct (inited s); [|discriminate].
+      destruct (I_mwf hs s I) as [E|[u E]]; rewrite E in HB; simpl in HB; [discriminate|].
+      destruct (Nat.eqb_spec u t) as [Eu|Hne]; [discriminate|]. eauto. }
+    unfold step in H.
+    destruct (pcs s t) as [ |ops|ops|ops|ops found|ops|ops|o ops|o ops h|o ops h|ops|ops| |h|h|u| | | |reg|reg] eqn:Hp;
+      try discriminate; try (unfold unlock_then in H; destruct (inited s); discriminate).
+    - left. destruct (todo s t) as [|[|] rest] eqn:Ht; try discriminate. split; assumption.
+    - right. eapply HL; [reflexivity|eassumption].
+    - destruct found; discriminate.
+    - right. destruct ops as [|[ | | ] ops]; eapply HL; try reflexivity; eassumption.
+    - destruct h as [u|]; [|discriminate]. destruct (get_entry u (repo s)); [|discriminate]. destruct o; discriminate.
+    - destruct h as [u|]; [|discriminate]. right. eapply HL; [reflexivity|eassumption].
+    - destruct (has_tid u (repo s)); discriminate.
+    - destruct (h_prepare hs && inited s); [|discriminate]. right. eapply HL; [reflexivity|eassumption].
+    - destruct (h_parent hs && reg); [|discriminate]. unfold unlock_then in H. destruct (inited s); discriminate.
+  Qed.
+
+  Section Reach.
+    Variable progs : tid -> list item.
+
+    (** the list and its count are touched only by the thread that owns the mutex *)
+    Theorem mutex_discipline s t l s' : reachable hs progs s -> step hs t s = Next l s' -> shared l = true -> mtx s = Some (Thr t, 1).
+    Proof.
+      intros R H Hs. pose proof (reachable_inv hs Hpar progs s R) as I. destruct (I_thr hs s I t) as [_ [T2 _]].
+      unfold step, lock_then, unlock_then in H.
+      destruct (pcs s t) eqn:Hp; cbn [holding] in T2; step_cases H; try discriminate; injection H as <- <-; try discriminate Hs;
+        apply T2; reflexivity.
+    Qed.
+
+    (** between constructor and destructor a thread has exactly one entry, and every lookup it makes finds that entry *)
+    Theorem own_entry s t : reachable hs progs s -> registered (pcs s t) = true ->
+      NoDup (map e_tid (repo s)) /\ In t (map e_tid (repo s)) /\ find_tid t (repo s) = Some t /\
+      exists e, get_entry t (repo s) = Some e /\ e_tid e = t /\ forall e', In e' (repo s) -> e_tid e' = t -> e' = e.
+    Proof.
+      intros R Hr. pose proof (reachable_inv hs Hpar progs s R) as I. destruct (I_thr hs s I t) as [_ [_ [T3 _]]].
+      assert (Hin : In t (map e_tid (repo s))) by now apply T3.
+      split; [apply I|]. split; [assumption|]. split.
+      - unfold find_tid. apply has_tid_in in Hin. now rewrite Hin.
+      - destruct (get_entry_in t (repo s) Hin) as [e He]. exists e. split; [assumption|].
+        apply get_entry_some in He as [H1 H2]. split; [assumption|]. intros e' H1' H2'.
+        eapply nodup_entry_unique; [apply I|assumption|assumption|congruence].
+    Qed.
+
+    (** the pointer an accessor hands back, and the one the destructor removes, is the caller's own entry *)
+    Theorem handle_is_own s t : reachable hs progs s ->
+      match pcs s t with
+      | A3 _ _ h | A4 _ _ h | D3 h | D3b h => h = Some t
+      | D5 u => u = t
+      | _ => True
+      end.
+    Proof.
+      intros R. pose proof (reachable_inv hs Hpar progs s R) as I. destruct (I_thr hs s I t) as [_ [_ [_ T4]]].
+      destruct (pcs s t); simpl in T4; try exact Logic.I;
+        try (apply andb_true_iff in T4 as [_ T4]); try (now apply tid_of_handle); now apply Nat.eqb_eq.
+    Qed.
+
+    (** what a thread reads back through its accessor pointers is what the same operations give when run alone *)
+    Theorem reads_alone s t : reachable hs progs s -> reads s t = snd (alone (trace s t)).
+    Proof. intros R. apply (I_obs hs s (reachable_inv hs Hpar progs s R)). Qed.
+
+    Theorem safe s t : reachable hs progs s -> step hs t s <> Fault.
+    Proof. intros R. apply not_fault. now apply (reachable_inv hs Hpar progs). Qed.
+
+    (** deadlock freedom: whenever some thread has not finished, some thread can take a step *)
+    Theorem progress s : reachable hs progs s -> (exists t, ~ finished s t) -> exists t l s', step hs t s = Next l s'.
+    Proof.
+      intros R [t Hnf]. pose proof (reachable_inv hs Hpar progs s R) as I.
+      destruct (I_mwf hs s I) as [E|[u E]].
+      - exists t. destruct (step hs t s) as [| |l s'] eqn:Hs; [| |eauto].
+        + apply blocked_reason in Hs; [|assumption]. destruct Hs as [Hf|[_ [u [_ Hu]]]]; [contradiction|congruence].
+        + exfalso. eapply not_fault; eassumption.
+      - exists u. destruct (step hs u s) as [| |l s'] eqn:Hs; [| |eauto].
+        + assert (Hh : holding hs (pcs s u) = true) by (apply (I_thr hs s I u); assumption).
+          apply blocked_reason in Hs; [|assumption]. destruct Hs as [[Hf _]|[Hf _]]; [rewrite Hf in Hh; discriminate|congruence].
+        + exfalso. eapply not_fault; eassumption.
+    Qed.
+
+    (** quiescence: when every thread is outside the library nothing is left *)
+    Theorem quiescent s : reachable hs progs s -> (forall t, pcs s t = Out) -> repo s = [] /\ cnt s = 0 /\ mtx s = None.
+    Proof.
+      intros R Hall. pose proof (reachable_inv hs Hpar progs s R) as I.
+      assert (E : repo s = []).
+      { destruct (repo s) as [|x r] eqn:Er; [reflexivity|]. exfalso.
+        destruct (I_thr hs s I (e_tid x)) as [_ [_ [T3 _]]]. rewrite Hall, Er in T3. simpl in T3.
+        assert (false = true) by (apply T3; now left). discriminate. }
+      split; [assumption|]. split; [rewrite (I_cnt hs s I), E; reflexivity|].
+      destruct (I_mwf hs s I) as [Em|[u Em]]; [assumption|].
+      apply (I_thr hs s I u) in Em. rewrite Hall in Em. discriminate.
+    Qed.
+
+    (** ... hence a later call made while no other thread is inside the library sees exactly one registered thread *)
+    Theorem lone_call_sees_one s t ops : reachable hs progs s -> pcs s t = K2 ops -> (forall u, u <> t -> registered (pcs s u) = false) -> cnt s = 1.
+    Proof.
+      intros R Hp Hoth. pose proof (reachable_inv hs Hpar progs s R) as I. rewrite (I_cnt hs s I).
+      assert (Hall : forall e, In e (repo s) -> e_tid e = t).
+      { intros e He. destruct (Nat.eq_dec (e_tid e) t) as [|Hne]; [assumption|]. exfalso.
+        destruct (I_thr hs s I (e_tid e)) as [_ [_ [T3 _]]]. rewrite Hoth in T3 by assumption.
+        assert (false = true) by (apply T3; now apply in_map). discriminate. }
+      assert (Hin : In t (map e_tid (repo s))) by (apply (I_thr hs s I t); rewrite Hp; reflexivity).
+      pose proof (I_nodup hs s I) as ND.
+      destruct (repo s) as [|x [|y r]]; simpl in *; [contradiction|reflexivity|]. exfalso.
+      inversion ND as [|? ? Hx _]; subst. apply Hx. left.
+      rewrite (Hall x) by auto. rewrite (Hall y) by auto. reflexivity.
+    Qed.
+  End Reach.
+End Theorems.
